@@ -41,7 +41,7 @@ func main() {
 	hlib.Guarded(func(run *hlib.Run) {
 		run.Rule = "rings of 3..5 real LocalNodes with millisecond timers; 3 client goroutines x 8..12 operations (Put/Get/Delete/PrefixAppend/PrefixContains/PrefixRemove/PrefixList) on 2 keys through random live entry nodes, seeded yields, while a churn goroutine performs a join and a leave (half of the cases: the leave of the key owner L runs inside the window in which L's successor holds the membership lock for a joiner placed directly behind L); history per key checked for linearizability (≤ ~20 calls per object); non-trivial = distinct case in which a membership change overlapped client calls"
 		rng := hlib.NewRng(run.Seed)
-		cases := 12
+		cases := 20
 		if run.Thorough() {
 			cases = 150
 		}
@@ -63,7 +63,7 @@ func oneCase(run *hlib.Run, rng *hlib.Rng, c int) {
 	// directed window (half of the cases): the leaver L is the owner of keys[0], the joiner's id lies directly
 	// behind L (both share the successor S), the join is held right after S accepted it - before the advisory
 	// FinishJoin reaches L - and L's Leave runs inside that window, while S holds the membership lock for the joiner
-	directed := rng.Chance(50)
+	directed := rng.Chance(65)
 	var dirLeaver uint64
 	if directed {
 		succOf := func(x uint64, strict bool) uint64 {
